@@ -94,8 +94,12 @@ pub fn run_children(inputs: &[Vec<u8>], n: usize) -> Result<Vec<Vec<String>>, St
     }
     let mut out = Vec::new();
     let mut kids = Vec::new();
-    for _ in 0..n {
-        let mut child = Command::new(&exe).arg("c18-child").arg("x").stdin(Stdio::piped()).stdout(Stdio::piped()).spawn().map_err(|e| e.to_string())?;
+    for k in 0..n {
+        let mut cmd = Command::new(&exe);
+        cmd.arg("c18-child").arg("x");
+        // child k + 1: the first child of C18 already runs under a non-default environment
+        super::c14::child_env(k + 1, &mut cmd);
+        let mut child = cmd.stdin(Stdio::piped()).stdout(Stdio::piped()).spawn().map_err(|e| e.to_string())?;
         let mut stdin = child.stdin.take().unwrap();
         let data = framed.clone();
         let feeder = std::thread::spawn(move || {
@@ -346,7 +350,7 @@ pub fn run(ctx: &Ctx) -> Report {
     all.sort();
     all.dedup();
     let inputs: Vec<Vec<u8>> = all.iter().map(|(b, _)| b.clone()).collect();
-    match run_children(&inputs, 4) {
+    match run_children(&inputs, 8) {
         Err(e) => rep.stats.skipped.push(format!("cross-process stage could not run: {e}")),
         Ok(outs) => {
             for (ci, lines) in outs.iter().enumerate() {
